@@ -4,6 +4,7 @@
 #include "vhrt.h"
 #include "vh_dump.h"
 #include "json.h"
+#include "printbuf.h"
 #include "linkhash.h"
 #include <math.h>
 #include <stdint.h>
@@ -503,6 +504,40 @@ static void ev_copy(json_object *src)
 		json_object_put(copy);
 }
 
+/* a custom serializer that needs no user data, registered on a random node of the tree: a deep copy made with the default
+ * shallow copy "copies over the serializer function" (json_object.h), so source and copy still print alike */
+static int c09_stateless_ser(struct json_object *jso, struct printbuf *pb, int level, int flags)
+{
+	(void)jso;
+	(void)level;
+	(void)flags;
+	return printbuf_memappend(pb, "\"custom\"", 8) < 0 ? -1 : 8;
+}
+static void set_stateless(json_object *o)
+{
+	for (int hops = (int)vh_below(3); hops > 0 && o; hops--)
+	{
+		json_object *next = NULL;
+		if (json_object_get_type(o) == json_type_array && json_object_array_length(o) > 0)
+			next = json_object_array_get_idx(o, vh_below((uint32_t)json_object_array_length(o)));
+		else if (json_object_get_type(o) == json_type_object && json_object_object_length(o) > 0)
+		{
+			int j = (int)vh_below((uint32_t)json_object_object_length(o)), i = 0;
+			json_object_object_foreach(o, k, v)
+			{
+				(void)k;
+				if (i++ == j)
+					next = v;
+			}
+		}
+		if (!next)
+			break;
+		o = next;
+	}
+	/* (a double made from a text keeps that text in its user data: leave those alone) */
+	if (o && !(json_object_get_type(o) == json_type_double && json_object_get_userdata(o)))
+		json_object_set_serializer(o, c09_stateless_ser, NULL, NULL);
+}
 static int drive(int start, int nexec)
 {
 	const char *seed = getenv("VERIF_SEED");
@@ -534,6 +569,8 @@ static int drive(int start, int nexec)
 		ev_copy(th);
 		json_object_put(th);
 		json_object *c = gen(2);
+		if (c && vh_below(3) == 0)
+			set_stateless(c);
 		ev_copy(c);
 		json_object_put(a);
 		json_object_put(b);
